@@ -44,7 +44,7 @@ from vf import env as venv
 from vf.core import Case, Ob
 from vf.fpx import FCase, FOb, FInputs
 from vf.sym import S, SI
-from vf.tsym import st, exact_floats
+from vf.tsym import st, exact_floats, guard_library_exceptions
 
 PROP = "C13"
 
@@ -275,6 +275,7 @@ class StepsExact(Case):
         self.bounds = {"e": [self.site.m_lo, self.N], "(start, dt)": EXACT_PAIRS}
         self.functions = self.site.functions
 
+    @guard_library_exceptions
     def run(self, inp):
         e = inp.int("e", self.site.m_lo, self.N)
         obs = []
@@ -474,6 +475,7 @@ class LabelsComputeDynamics(_ApiLabels):
     env = _e1_env("oqupy.system_dynamics", "oqupy.dynamics", "oqupy.util", "oqupy.control", np_proxy=("oqupy.control",))
     real_env = {"oqupy.control.print": lambda *a, **k: None}
 
+    @guard_library_exceptions
     def run(self, inp):
         ns, start, dt = self._inputs(inp)
         cs, P1, P2 = _scaled_props(inp, self.NMAX, 2)
@@ -513,6 +515,7 @@ class LabelsGradient(_ApiLabels):
     env = _e1_env("oqupy.system_dynamics", "oqupy.gradient", "oqupy.dynamics", "oqupy.util", "oqupy.control", np_proxy=("oqupy.control",))
     real_env = {"oqupy.control.print": lambda *a, **k: None}
 
+    @guard_library_exceptions
     def run(self, inp):
         ns, start, dt = self._inputs(inp, lo=1)
         cs, P1, P2 = _scaled_props(inp, self.NMAX, 2)
@@ -565,6 +568,7 @@ class LabelsWithField(_ApiLabels):
         else:
             self.bounds["num_steps"] = [1, self.NMAX]
 
+    @guard_library_exceptions
     def run(self, inp):
         ns, start, dt = self._inputs(inp, lo=self.lo)
         cs, P1, P2 = _scaled_props(inp, self.NMAX, 2)
@@ -636,6 +640,7 @@ class ComputeLoop(Case):
         self.bounds = {"m": [0, self.NMAX], "calls": 2, "dt": str(self.dt), "start_time": "symbolic"}
         self.functions = ("oqupy/tempo.py:%s.compute" % kind, "oqupy/tempo.py:%s._get_num_step" % kind, "oqupy/tempo.py:%s._time" % kind)
 
+    @guard_library_exceptions
     def run(self, inp):
         cls = Tempo if self.kind == "Tempo" else MeanFieldTempo
         m1 = inp.int("m1", 0, self.NMAX)
@@ -720,6 +725,7 @@ class PtTebdLoop(Case):
         self.id = "H2/PtTebd.compute"
         self.bounds = {"end_step - start_step": [0, self.NMAX], "start_step": [0, 3], "calls": 2}
 
+    @guard_library_exceptions
     def run(self, inp):
         s0 = int(inp.int("s0", 0, 3))
         n1 = int(inp.int("n1", 0, self.NMAX))
@@ -769,6 +775,7 @@ class DynamicsAdd(Case):
         self.id = "H3/%s.add/n%d" % (kind, n)
         self.bounds = {"insertions": n}
 
+    @guard_library_exceptions
     def run(self, inp):
         n = self.n
         ts = [inp.real("t%d" % i) for i in range(n)]
